@@ -28,7 +28,7 @@ def showMap : Option KeyMap → String
       | .disabled k => s!"{e.1}>-{k}") ++ "}"
 
 def showVals (s : St) : String :=
-  ",".intercalate (s.names.map fun e => s!"{e.1}={s.w.val e.1}")
+  ",".intercalate ((s.names.mergeSort (fun a b => a.1 ≤ b.1)).map fun e => s!"{e.1}={s.w.val e.1}")
 
 def obs (s : St) : String :=
   s!"in:{showPanel s .inputs} out:{showPanel s .outputs} imap:{showMap s.w.imap} omap:{showMap s.w.omap} vals:{showVals s}"
@@ -96,7 +96,9 @@ def exec (s : St) (ws : List String) : Option (St × String) :=
       let names := if r.2 = .ok then
           (s.names.map fun e => (e.1, (mine.lookup e.1).getD e.2)) ++ fresh
         else s.names ++ fresh
-      some ({ s with w := r.1, names }, showRes r.2)
+      -- a refused node still exists (parentless): its channels can be connected to
+      let g2 := registerChans (registerChans r.1.g .dataIn (ins.map Prod.snd)) .dataOut (outs.map Prod.snd)
+      some ({ s with w := { r.1 with g := g2 }, names }, showRes r.2)
     | _, _ => none
   | "ext" :: label :: "in" :: rest =>
     -- a node that is nobody's child: its channels exist (for connections and values) only
@@ -169,10 +171,11 @@ def step' (s : St) (ws : List String) : St × List String :=
     -- keyword failures are the model's own
     let s0 := { s with kw := .ok }
     if s.kw ≠ .ok then (s0, [s!"exc:{showRes s.kw} {obs s0}"])
-    else if (s.w.panel .inputs).isNone || (s.w.panel .outputs).isNone then (s0, [s!"exc:typeErr {obs s0}"])
-    else if status = "ok" then (s0, [s!"ok ret:{showRet s0} {obs s0}"])
+    else if (s.w.panel .inputs).isNone then (s0, [s!"exc:typeErr {obs s0}"])
     else if status.startsWith "exc:" then (s0, [s!"{status} {obs s0}"])
-    else (s, ["bad-op"])
+    else if status ≠ "ok" then (s, ["bad-op"])
+    else if (s.w.panel .outputs).isNone then (s0, [s!"exc:typeErr {obs s0}"])
+    else (s0, [s!"ok ret:{showRet s0} {obs s0}"])
   | _ =>
     match exec s ws with
     | some (s', r) => (s', [s!"{r} {obs s'}"])
